@@ -8,7 +8,7 @@ Prints one line per patch; exit 0 iff everything is as expected."""
 import json, os, subprocess, sys, time
 
 ROOT = os.path.dirname(os.path.dirname(os.path.abspath(__file__)))
-REPO = "/tmp/repo-seedtest"
+REPO = os.environ.get("SWEEP_REPO", "/tmp/repo-seedtest")   # a second sweep at the same time needs its own worktree
 env = dict(os.environ, GOFLAGS="-mod=mod", GOPROXY="off", GOSUMDB="off", GOTOOLCHAIN="local", VERIF_REPO=REPO)
 
 BENIGN_PROPS = {
